@@ -94,6 +94,11 @@ func c33Engine() *Engine {
 		for j := 0; j < 1+r.Intn(3); j++ {
 			b.Cols = append(b.Cols, Col{Name: fmt.Sprintf("V%d", j), Typ: []string{"f4", "f8", "i4", "i2", "u4", "i8"}[r.Intn(6)]})
 		}
+		// in 2 runs of 5 the last CSV column is a string16 column (quoting matters there)
+		strLast := r.Pct(40)
+		if strLast {
+			b.Cols = append(b.Cols, Col{Name: "Memo", Typ: "U16"})
+		}
 		nrows := 1 + r.Intn(40)
 		if r.Pct(15) {
 			nrows = 100 + r.Intn(100)
@@ -117,7 +122,12 @@ func c33Engine() *Engine {
 		for _, rc := range recs {
 			l := time.Unix(0, rc.T).UTC().Format("20060102 15:04:05")
 			for j := range b.Cols {
-				l += "," + fmt.Sprint(bucketColVal(b, rc.ID, j, idc))
+				v := bucketColVal(b, rc.ID, j, idc)
+				if a, ok := v.([16]rune); ok {
+					l += "," + Str16Text(a)
+				} else {
+					l += "," + fmt.Sprint(v)
+				}
 			}
 			lines = append(lines, l)
 		}
@@ -179,10 +189,26 @@ func c33Engine() *Engine {
 			cases = append(cases,
 				csvCase{kind: "bad-field-count", pos: i, chunkSize: pickChunk(), mustErr: true, content: mod(func(l string) string { return l + ",99" })},
 				csvCase{kind: "bad-field-count", pos: i, chunkSize: pickChunk(), mustErr: true, content: mod(func(l string) string { return l[:strings.LastIndex(l, ",")] })},
-				csvCase{kind: "bad-number", pos: i, chunkSize: pickChunk(), mustErr: true, content: mod(func(l string) string { return l[:strings.LastIndex(l, ",")] + ",x1y" })},
+				csvCase{kind: "bad-number", pos: i, chunkSize: pickChunk(), mustErr: true, content: mod(func(l string) string {
+					// the last numeric field (the string column takes any text)
+					if strLast {
+						f := strings.Split(l, ",")
+						f[len(f)-2] = "x1y"
+						return strings.Join(f, ",")
+					}
+					return l[:strings.LastIndex(l, ",")] + ",x1y"
+				})},
 				csvCase{kind: "bad-time", pos: i, chunkSize: pickChunk(), mustErr: true, content: mod(func(l string) string { return "2021-13-45 99:99" + l[strings.Index(l, ","):] })},
 				csvCase{kind: "stray-quote", pos: i, chunkSize: pickChunk(), mustErr: true, content: mod(func(l string) string { return l[:10] + "\"" + l[10:] })},
 			)
+			if strLast {
+				cases = append(cases,
+					// a quote opened at the start of the last field and never closed
+					csvCase{kind: "unterminated-quote", pos: i, chunkSize: pickChunk(), mustErr: true, content: mod(func(l string) string { return l[:strings.LastIndex(l, ",")] + ",\"halted" })},
+					// a bare quote inside the last field
+					csvCase{kind: "bare-quote", pos: i, chunkSize: pickChunk(), mustErr: true, content: mod(func(l string) string { return l + "\"x" })},
+				)
+			}
 		}
 		res.Runs++
 		// one simulation per case: fresh disk, fresh server
